@@ -75,7 +75,7 @@ def oracle_release(case, lines, runner=None):
     """after release() / leaving the with-block a request neither holds a slot nor waits for one"""
     for n in runner.notes:
         if n[0] == 'leaked':
-            return [{'what': f'request {n[1]} still occupies or awaits resource {n[2]} right after it was released / its with-block was left at {n[3]}',
+            return [{'what': f'request {n[1]} still occupies or awaits resource {n[2]} right after it was released / its with-block was left at {n[3]}{n[4] if len(n) > 4 else ""}',
                      'signature': 'res-slot-leaked'}]
     return []
 
